@@ -179,7 +179,12 @@ def origins(fa, expr, at, _seen=frozenset()):
         if isinstance(v, ast.IfExp):
             res = []
             for (arm, branch, pol) in (("T", v.body, True), ("F", v.orelse, False)):
-                res += arms(CaseDef(d, arm, branch, fa._atoms(v.test, d.node, pol)))
+                try:
+                    lits = fa._atoms(v.test, d.node, pol)
+                except RecursionError:
+                    # a test on a name that was rebound in terms of itself (`p = p or {}`): kept as one literal
+                    lits = [(A.norm(v.test), pol)]
+                res += arms(CaseDef(d, arm, branch, lits))
             return res
         return [d]
 
@@ -527,6 +532,163 @@ class FlatInit:
         return bool(os_) and all(any(same_def(o, d) for d in defs) for o in os_)
 
 
+EMPTY_VALUES = ("()", "[]", "{}", "tuple()", "list()", "dict()", "tuple([])", "tuple(())")
+
+
+def feasible_with(conj, aliases, value):
+    """Can a path with the branch literals `conj` be taken when the mapping spelled by one of `aliases` is
+    `value`?  Literals about anything else do not decide (the path stays possible)."""
+    for (t, p) in conj:
+        e = parse_literal(t)
+        if e is None:
+            continue
+
+        class R(ast.NodeTransformer):
+            def visit(self, n):
+                if isinstance(n, ast.NamedExpr):
+                    n = n.value
+                if isinstance(n, ast.expr) and A.norm(n) in aliases:
+                    return ast.Name(id="CA", ctx=ast.Load())
+                return ast.NodeTransformer.visit(self, n)
+
+        e = ast.fix_missing_locations(ast.Expression(body=R().visit(e)))
+        about_it = True
+        for x in ast.walk(e):
+            if not isinstance(x, _SAFE_NODES) or (isinstance(x, ast.Name) and x.id not in ("CA", "len", "bool")) \
+                    or (isinstance(x, ast.Call) and not (isinstance(x.func, ast.Name) and x.func.id in ("len", "bool") and not x.keywords)):
+                about_it = False
+                break
+        if not about_it:
+            continue
+        try:
+            r = bool(eval(compile(e, "<literal>", "eval"), {"__builtins__": {}}, {"CA": value, "len": len, "bool": bool}))
+        except Exception:
+            return False
+        if r != p:
+            return False
+    return True
+
+
+def _immutable_constant(v):
+    v = strip_cast(v)
+    if isinstance(v, ast.Constant):
+        return True
+    if isinstance(v, ast.Tuple):
+        return all(_immutable_constant(x) for x in v.elts)
+    if isinstance(v, ast.UnaryOp) and isinstance(v.operand, ast.Constant):
+        return True
+    if isinstance(v, ast.Call) and isinstance(v.func, ast.Name) and v.func.id == "frozenset" and all(_immutable_constant(a) for a in v.args) and not v.keywords:
+        return True
+    return False
+
+
+def outliving_state_reads(fa, expr, at):
+    """What the value of `expr` (at CFG node `at`) is read from that outlives the call and can be rebound or
+    changed by another one: names the function declares global / nonlocal and reads before it has assigned them,
+    module-level variables that some function rebinds or that hold a mutable object, attributes of a class
+    (through its name, `type(x)` or `x.__class__`).  Module-level functions, classes, imports and constants that
+    are never rebound are not state.  Returns the sorted list of such names."""
+    mod = fa.fi.module
+    declared = set()
+    for n in ast.walk(fa.node):
+        if isinstance(n, (ast.Global, ast.Nonlocal)):
+            declared |= set(n.names)
+    rebound = set()
+    for n in ast.walk(mod.tree):
+        if isinstance(n, ast.Global):
+            rebound |= set(n.names)
+    out = set()
+    atoms = fa.deps(expr, at)
+    for a in atoms:
+        kind, _, name = a.partition(":")
+        if kind == "local" and name in declared:
+            out.add(name)
+        elif kind == "global":
+            if name in mod.functions or name in mod.classes or name in mod.imports:
+                continue
+            if name in declared or name in rebound:
+                out.add(name)
+            elif name in mod.assigns and not _immutable_constant(mod.assigns[name]):
+                out.add(name)
+        elif kind == "attr":
+            parts = name.split(".")
+            if "__class__" in parts[1:]:
+                out.add(name)
+            elif parts[0] in mod.classes and len(parts) > 1:
+                ci = mod.classes[parts[0]]
+                if parts[1] not in ci.methods and parts[1] not in getattr(ci, "nested", {}):
+                    out.add(name)
+        elif kind == "getattr" and "call:type" in atoms:
+            out.add("type(...)." + name)
+    return sorted(out)
+
+
+def own_argument_field(fl, field, param):
+    """Decides, on the flattened constructor, that what self.<field> holds when the constructor returns is made
+    from THIS construction's argument `param` and from nothing that outlives the construction:
+      * every definition that creates the final value is either an empty container, made only on paths on which
+        the argument is empty, or is computed (normalised) from the argument;
+      * no such value is read from state shared between constructions (outliving_state_reads);
+      * the object is not changed in place afterwards.
+    Returns (ok, message, statement to point at)."""
+    fa = fl.fa
+    if param not in fa.fi.params:
+        return False, "the constructor has no parameter %r any more" % param, None
+    attr = ast.parse("self." + field, mode="eval").body
+    defs = origins(fa, attr, fl.exit)
+    if not defs:
+        return False, "no assignment of self.%s reaches the end of the constructor" % field, None
+    made, empties = 0, []
+    for d in defs:
+        if d.value is None:
+            return False, "self.%s is not assigned a value" % field, d.stmt
+        v = strip_cast(d.value)
+        shared = outliving_state_reads(fa, v, d.node)
+        if shared:
+            return False, ("self.%s is read from state that outlives this construction (%s): another construction, or another thread "
+                           "between the writes, gets the context args of a different call, which is then keyed, stored and served under them"
+                           % (field, ", ".join(shared))), d.stmt
+        if fa.xnorm(v, d.node) in EMPTY_VALUES:
+            empties.append(d)
+            continue
+        dp = fa.deps(v, d.node)
+        if ("param:" + param) not in dp:
+            return False, "self.%s is not computed from the %s given to this construction" % (field, param), d.stmt
+        made += 1
+    if not made:
+        return False, "self.%s never holds the %s given to this construction" % (field, param), defs[0].stmt
+    # it is empty only when the argument is: read off what the field finally holds per class of paths
+    try:
+        oc = fa.outcomes("self." + field)
+    except RecursionError:
+        oc = None
+    if oc is not None:
+        for (conj, txt) in oc:
+            if (txt in EMPTY_VALUES or txt == "<unassigned>") and feasible_with(conj, {param}, {"a": 1}):
+                return False, "self.%s is left empty on a path on which %s were given" % (field, param), (empties[0].stmt if empties else None)
+    else:
+        for d in empties:
+            if any(feasible_with(c, {param}, {"a": 1}) for c in case_conds(fa, d)):
+                return False, "self.%s is left empty on a path on which %s were given" % (field, param), d.stmt
+    # the object stays what it was made as
+    for s in fa.stmts((ast.Assign, ast.AugAssign, ast.Expr, ast.Delete)):
+        ids = fa.nodes(s)
+        if not ids:
+            continue
+        tg = []
+        if isinstance(s, (ast.Assign, ast.Delete)):
+            tg = [t.value for t in s.targets if isinstance(t, ast.Subscript)]
+        elif isinstance(s, ast.AugAssign):
+            tg = [s.target.value] if isinstance(s.target, ast.Subscript) else ([s.target] if isinstance(s.op, ast.BitOr) else [])
+        elif isinstance(s.value, ast.Call) and A.call_attr(s.value) in ("update", "setdefault", "pop", "clear", "popitem", "__setitem__", "__delitem__") \
+                and A.call_recv(s.value) is not None:
+            tg = [A.call_recv(s.value)]
+        for t in tg:
+            if _ref_name(strip_cast(t)) is not None and any(same_def(o, d) for o in (origins(fa, t, ids[0]) or []) for d in defs):
+                return False, "the mapping self.%s holds is changed in place after it was made from %s" % (field, param), s
+    return True, "", None
+
+
 def sibling_reference_sites(ck, rule):
     """C16.R5 / C02.R5: every reference-with-arguments built in base.py whose arg_hash reaches a
     storage or runner call passes the function's own context args."""
@@ -851,6 +1013,12 @@ def check(ck):
     okh = fl.hash_call is not None and bool(hks) and n_sites >= 1 and all(fl.denotes_any(m, init.nodes(s)[0], hks) for (s, m, v) in stores)
     ck.ob(R1, init.key(ah), okh, "arg_hash = hash(effective kwargs + context args)" if okh else
           "arg_hash is not computed from effective_kwargs_with_context_args", init.where(ah))
+    # the context args that key the call are the ones given to this construction (an argument of the constructor,
+    # normalised), never something kept from an earlier construction
+    p_ca = "context_args" if "context_args" in init.fi.params else (init.fi.params[4] if len(init.fi.params) > 4 else "")
+    oko, why_o, st_o = own_argument_field(fl, "context_args", p_ca)
+    ck.ob(R1, init.key(None, "context-args-of-this-call"), oko, "self.context_args is made from the context args given to this construction only" if oko else why_o,
+          init.where(st_o) if st_o is not None else init.where())
     rl = FA(ck, "runner_local.memento_run_local")
     body = rl.one(rl.calls("_filter_call"), "_filter_call (function body) call")
     p_ref = "fn_reference_with_args" if "fn_reference_with_args" in rl.fi.params else (rl.fi.params[1] if len(rl.fi.params) > 1 else "")
